@@ -1,6 +1,6 @@
 #!/bin/bash
 # dev helper: run every seeded change against the check of its property; writes seeded/RESULTS.md
-cd /verif
+cd /verif; export VERIF_NO_EVIDENCE=1   # dev runs against modified trees must not overwrite the committed evidence
 out=seeded/RESULTS.md
 echo "# Seeded changes vs. checks (quick tier)" > $out
 echo >> $out
